@@ -1,0 +1,30 @@
+//go:build verif
+
+package internal
+
+import (
+	"bytes"
+	"sync/atomic"
+)
+
+// Pool hooks for the verification harness in /verif. Compiled only with -tags verif.
+
+// VerifPoolHook receives every Get/Put of the buffer pool and of the generic pools.
+// kind is "get" or "put"; obj is a *bytes.Buffer, a []byte or another pooled value.
+var verifPoolHook atomic.Value // func(kind string, obj any)
+
+func VerifSetPoolHook(f func(kind string, obj any)) {
+	if f == nil {
+		f = func(string, any) {}
+	}
+	verifPoolHook.Store(f)
+}
+
+func verifOnPool(kind string, obj any) {
+	if f, ok := verifPoolHook.Load().(func(string, any)); ok {
+		f(kind, obj)
+	}
+}
+
+func verifOnBufferPut(b *bytes.Buffer) { verifOnPool("put", b) }
+func verifOnBufferGet(b *bytes.Buffer) { verifOnPool("get", b) }
